@@ -33,7 +33,7 @@ class SNode(object):
 
 class Tok(object):
     __slots__ = ('cls', 'role', 'nl', 'virtual', 'owner', 'text', 'start',
-                 'idx', 'lead')
+                 'idx', 'lead', 'gapkind', 'nobreak')
 
     def __init__(self, cls, role, virtual=False):
         self.cls = cls
@@ -44,6 +44,8 @@ class Tok(object):
         self.text = None       # filled by the concretiser
         self.start = None      # offset in the concretised text
         self.lead = ''         # layout placed before the token
+        self.gapkind = 'SP'    # class of that layout (for signatures)
+        self.nobreak = False
         self.idx = None
 
     def __repr__(self):
